@@ -675,6 +675,17 @@ impl<'a> Explorable for Model<'a> {
         self.check(s);
     }
 
+    fn case_of(&self, s: &State, a: Option<&Op>) -> Value {
+        let mut history = s.history.clone();
+        if let Some(a) = a {
+            history.push(a.clone());
+        }
+        let tmp = State { cfg: s.cfg, router: s.router.clone(), live: s.live.clone(), history, snapshot: String::new() };
+        let mut c = self.case(&tmp, None);
+        c["watch_label"] = json!(a.map(op_kind).unwrap_or("observe"));
+        c
+    }
+
     fn report_panic(&self, s: &State, a: Option<&Op>, location: &str, message: &str) {
         let mut history = s.history.clone();
         if let Some(a) = a {
